@@ -428,3 +428,43 @@ Definition aggregate (q : query) (a : aggs) : list bucket * N :=
   let skip := (0 <? q_interval q)%N in
   let bs := filter (fun kv => negb (skip && (fst (fst kv) =? 0)%N)) (a_bins a) in
   (bsort (q_func q) (map (fun kv => agg_bucket q (fst kv) (snd kv)) bs), a_ne a).
+
+(* ---------------------------------------------------------------- AggBin key codec (seq/qpr.go toKey/fromKey)
+   strings are lists of bytes; MID < 2^63 (strconv.Itoa(int(mid)) prints no sign) *)
+Open Scope N_scope.
+Definition sep : N := 124%N.   (* '|' *)
+
+Fixpoint itoa_aux (fuel : nat) (n : N) (acc : list N) : list N :=
+  match fuel with
+  | O => acc
+  | S f => let acc' := (48 + n mod 10) :: acc in
+           if n / 10 =? 0 then acc' else itoa_aux f (n / 10) acc'
+  end.
+(* strconv.Itoa for a non-negative int; fuel = number of bits bounds the number of digits *)
+Definition itoa (n : N) : list N := itoa_aux (S (N.to_nat (N.log2 n))) n [].
+
+Fixpoint atoi_acc (a : N) (cs : list N) : option N :=
+  match cs with
+  | [] => Some a
+  | c :: r => if (48 <=? c) && (c <=? 57) then atoi_acc (a * 10 + (c - 48)) r else None
+  end.
+(* strconv.Atoi on an unsigned decimal; None = error (fromKey panics) *)
+Definition atoi (cs : list N) : option N := match cs with [] => None | _ => atoi_acc 0 cs end.
+
+(* strings.Cut(k, "|") *)
+Fixpoint cut (cs : list N) : option (list N * list N) :=
+  match cs with
+  | [] => None
+  | c :: r => if c =? sep then Some ([], r)
+              else match cut r with Some (a, b) => Some (c :: a, b) | None => None end
+  end.
+
+(* AggBin.toKey / fromKey *)
+Definition to_key (mid : N) (tok : list N) : list N := itoa mid ++ sep :: tok.
+Definition from_key (k : list N) : option (N * list N) :=
+  match cut k with
+  | Some (smid, tok) => match atoi smid with Some mid => Some (mid, tok) | None => None end
+  | None => None
+  end.
+
+Close Scope N_scope.
